@@ -54,9 +54,9 @@ def gen_cases(tier, seed):
         cases.append({"kind": "flip", "kinds": kinds, "sseed": rng.randrange(1 << 48), "budget": budget})
     for i in range({"quick": 6, "search": 12, "thorough": 40}[tier]):
         cases.append({"kind": "garbage", "kinds": rng.choice(shapes + ["L", "G", "S"]), "sseed": rng.randrange(1 << 48)})
-    for i in range({"quick": 4, "search": 8, "thorough": 30}[tier]):
+    for i in range({"quick": 6, "search": 8, "thorough": 30}[tier]):
         cases.append({"kind": "rm_multi", "sseed": rng.randrange(1 << 48)})
-    for i in range({"quick": 8, "search": 16, "thorough": 60}[tier]):
+    for i in range({"quick": 16, "search": 16, "thorough": 64}[tier]):
         cases.append({"kind": "fault", "op": ["dec", "dec", "test", "comp", "legacy", "dec_stdout", "dec_multi", "comp_multi"][i % 8],
                       "kinds": rng.choice(shapes), "sseed": rng.randrange(1 << 48), "sparse": (i // 8) % 2 == 1})
     if tier == "thorough":
